@@ -80,5 +80,17 @@ def toList (t : HashTab) : List Entry := t.buckets.flatten
 /-- `hash_num_keys` -/
 def count (t : HashTab) : Nat := t.numKeys
 
+/-- bucket index of a key in a table with `n` chains -/
+def hashIdx (n : Nat) (key : Bytes) : Nat := (hashLoop key 0 0).toNat % n
+
+/-- invariant of every table built by `hash_new` / `hash_add` / `hash_drop` (proved in
+    `Lemmas/HashTab.lean`): there are chains, keys within a chain are distinct, every entry sits in the
+    chain its key hashes to, and `num_keys` counts the entries -/
+structure WF (t : HashTab) : Prop where
+  pos : 0 < t.buckets.length
+  nodup : ∀ i (h : i < t.buckets.length), (t.buckets[i].map Prod.fst).Nodup
+  home : ∀ i (h : i < t.buckets.length), ∀ e ∈ t.buckets[i], hashIdx t.buckets.length e.1 = i
+  count : t.numKeys = t.toList.length
+
 end HashTab
 end Strophe
